@@ -11,7 +11,7 @@ from .. import data as D
 from .. import meta as M
 from ..oracles import decode_ragged_dir, DecodeError, snapshot, snap_diff, snap_digest, leaks
 from ..readme import check_ragged_readme
-from .arrayhist import Viol, lenbucket, failing_iterable, Boom, Interrupt
+from .arrayhist import Viol, Diverged, lenbucket, failing_iterable, Boom, Interrupt
 
 MUTATING = ('append', 'iterappend', 'iterappend_fail', 'truncate', 'delete') + M.META_OPS
 SMALLCAP = {'int8': 127, 'uint8': 255, 'int16': 32767}
@@ -40,7 +40,7 @@ C04_ALPHABET = [
 
 class RaggedHistory(Engine):
     prop = 'C04'
-    oracles = ('model', 'fresh', 'reject', 'indextype')
+    oracles = ('model', 'fresh', 'indextype', 'outcome')
     weights = dict(append=22, iterappend=12, truncate=14, mode=4, reopen=10, append_bad=6,
                    truncate_bad=5, getbad=4, iter=8, meta=0, iterappend_fail=4)
     quick_runs = 3000
@@ -120,7 +120,7 @@ class RaggedHistory(Engine):
         if k == 'reopen':
             return {'op': 'reopen', 'mode': rng.choice(self.reopen_modes)}
         if k == 'meta':
-            return M.gen_meta_op(rng)
+            return M.gen_meta_op(rng, with_bytes='meta' in self.oracles)
         if k == 'delete':
             return {'op': 'delete'}
         if k == 'copycheck':
@@ -284,6 +284,16 @@ class RaggedHistory(Engine):
                         'op': op['op'], 'detail': v.detail}
                 emit({'step': idx, 'op': op['op'], 'violation': v.oracle + ':' + v.signature})
                 break
+            except Diverged as dv:
+                st.probe('history_ended_outcome_not_this_propertys_subject')
+                emit({'step': idx, 'op': op['op'], 'ended': str(dv)})
+                try:
+                    st.disk_oracles(use_model=False)      # what the call left on disk is still this check's subject
+                except Viol as v:
+                    viol = {'oracle': v.oracle, 'signature': v.signature, 'op_index': idx,
+                            'op': op['op'], 'detail': v.detail}
+                    emit({'step': idx, 'op': op['op'], 'violation': v.oracle + ':' + v.signature})
+                break
         return {'violation': viol, 'stats': st.stats()}
 
     def features(self, sc, v):
@@ -333,6 +343,12 @@ class _RState:
 
     def has(self, o):
         return o in self.oracles
+
+    def unexpected(self, oracle, signature, detail=''):
+        """see arrayhist._State.unexpected"""
+        if self.has('outcome') and (self.has('reject') or not oracle.startswith('reject.')):
+            return Viol(oracle, signature, detail)
+        return Diverged(f'{oracle}:{signature}')
 
     def stats(self):
         return {'steps': self.steps, 'mutations_ok': self.mutations_ok, 'probes': self.probes,
@@ -488,7 +504,7 @@ class _RState:
         exc = self.call(lambda: self.h.append(obj))
         if exp is None:
             if exc is None:
-                raise Viol('reject.append', 'no_exception', f'bad={op.get("bad")}')
+                raise self.unexpected('reject.append', 'no_exception', f'bad={op.get("bad")}')
             if pre is not None:
                 d = snap_diff(pre, self.state_snapshot())
                 if d:
@@ -496,7 +512,7 @@ class _RState:
             self.log('append', 'rejected')
         else:
             if exc is not None:
-                raise Viol('model.append', f'raises:{type(exc).__name__}', str(exc)[:300])
+                raise self.unexpected('model.append', f'raises:{type(exc).__name__}', str(exc)[:300])
             if exp.shape[0] == 0:
                 self.probe('zero_length_subarray')
             if not self.L:
@@ -524,7 +540,7 @@ class _RState:
         it = objs if op.get('as', 'list') == 'list' else (o for o in objs)
         exc = self.call(lambda: self.h.iterappend(it))
         if exc is not None:
-            raise Viol('model.iterappend', f'raises:{type(exc).__name__}', f'n={len(objs)} {str(exc)[:200]}')
+            raise self.unexpected('model.iterappend', f'raises:{type(exc).__name__}', f'n={len(objs)} {str(exc)[:200]}')
         if not objs:
             self.probe('iterappend_empty_iterable')
         if any(e.shape[0] == 0 for e in exps):
@@ -562,7 +578,7 @@ class _RState:
         exc = self.call(lambda: self.h.iterappend(failing_iterable(objs, 'generator', raise_at,
                                                                   Interrupt if op['how'] == 'raise_base' else Boom)))
         if exc is None:
-            raise Viol('model.iterappend_fail', 'no_exception', f'how={op["how"]} pos={pos}')
+            raise self.unexpected('model.iterappend_fail', 'no_exception', f'how={op["how"]} pos={pos}')
         self.L.extend(exps[:pos])
         self.probe('iterappend_failed_after_%d_items' % min(pos, 2))
         if pos:
@@ -586,8 +602,15 @@ class _RState:
         pre = self.state_snapshot() if (not ok and self.has('reject')) else None
         exc = self.call(lambda: self.darr.truncate_raggedarray(target, index))
         if not ok:
+            if exc is None and it in (None, 'none', 'npint64', 'npint32') and not self.has('reject'):
+                # a truncation that keeps everything in list-slicing sense (L[:index] == L) and is carried out as a
+                # no-op agrees with the model; that it be refused is not stated for ragged arrays
+                self.probe('non_shortening_truncate_accepted_as_noop')
+                self.log('truncate', 'noop', {'it': it})
+                self.after_step(op)
+                return
             if exc is None:
-                raise Viol('reject.truncate', 'no_exception', f'index={index!r} len={len(self.L)}')
+                raise self.unexpected('reject.truncate', 'no_exception', f'index={index!r} len={len(self.L)}')
             if pre is not None:
                 d = snap_diff(pre, self.state_snapshot())
                 if d:
@@ -597,7 +620,7 @@ class _RState:
             removed = self.L[index:]
             if exc is not None:
                 tag = ':removed_all_zero_length' if all(a.shape[0] == 0 for a in removed) else ''
-                raise Viol('model.truncate', f'raises:{type(exc).__name__}{tag}',
+                raise self.unexpected('model.truncate', f'raises:{type(exc).__name__}{tag}',
                            f'index={index} len={len(self.L)} {str(exc)[:200]}')
             if removed and all(a.shape[0] == 0 for a in removed):
                 self.probe('truncate_removes_only_zero_length')
@@ -616,13 +639,13 @@ class _RState:
         item = {'float': 1.0, 'str': '0', 'slice': slice(0, 1), 'none': None, 'list': [0], 'npfloat': np.float64(0)}[w]
         try:
             self.h[item]
-            raise Viol('model.getitem', f'noninteger_accepted:{w}', '')
+            raise self.unexpected('model.getitem', f'noninteger_accepted:{w}', '')
         except TypeError:
             pass
-        except Viol:
+        except (Viol, Diverged):
             raise
         except Exception as e:
-            raise Viol('model.getitem', f'noninteger_wrong_class:{w}:{type(e).__name__}', str(e)[:200])
+            raise self.unexpected('model.getitem', f'noninteger_wrong_class:{w}:{type(e).__name__}', str(e)[:200])
         self.log('getbad', w)
 
     def do_iter(self, op):
@@ -642,17 +665,33 @@ class _RState:
             self.probe('iter_arrays_general_range')
             if gst < 0:
                 self.probe('iter_arrays_negative_step')
-        exp = [self.L[i] for i in range(s, n if e is None else e, stp)]
+        # "iter_arrays for any start/end/step equals a list-of-ndarrays model": for negative values the statement can
+        # be read as indices start, start+step, ... (each taken like ra[i]) or as list slicing L[start:end:step];
+        # where the two readings differ either is accepted
+        readings = [[self.L[i] for i in range(s, n if e is None else e, stp)], self.L[slice(s, e, stp)]]
         try:
             got = list(self.h.iter_arrays(startindex=s, endindex=e, stepsize=stp))
         except Exception as ex:
-            raise Viol('model.iter_arrays', f'raises:{type(ex).__name__}', f's={s} e={e} st={stp} n={n} {str(ex)[:200]}')
-        if len(got) != len(exp):
-            raise Viol('model.iter_arrays', 'count', f'{len(got)} != {len(exp)} s={s} e={e} st={stp}')
-        for a, b in zip(got, exp):
-            ok, why = D.arr_equal(a, b)
-            if not ok:
-                raise Viol('model.iter_arrays', why.split(' ')[0], why)
+            raise self.unexpected('model.iter_arrays', f'raises:{type(ex).__name__}', f's={s} e={e} st={stp} n={n} {str(ex)[:200]}')
+        why_not = None
+        for exp in readings:
+            if len(got) != len(exp):
+                why_not = why_not or ('count', f'{len(got)} != {len(exp)} s={s} e={e} st={stp}')
+                continue
+            bad = None
+            for a, b in zip(got, exp):
+                ok, why = D.arr_equal(a, b)
+                if not ok:
+                    bad = (why.split(' ')[0], why)
+                    break
+            if bad is None:
+                why_not = None
+                break
+            why_not = why_not or bad
+        if why_not:
+            raise self.unexpected('model.iter_arrays', why_not[0], why_not[1])
+        if len(readings[0]) != len(readings[1]):
+            self.probe('iter_arrays_range_and_slice_readings_differ')
         lk = leaks(self.path)
         if lk and self.has('leak'):
             raise Viol('leak', lk[0][0], str(lk[:4]))
@@ -683,7 +722,7 @@ class _RState:
         if problem and self.has('meta'):
             raise Viol(*problem)
         if out in ('rejected', 'keyerror', 'default'):
-            d = snap_diff(pre, snapshot(self.path))
+            d = M.state_diff(pre, snapshot(self.path))
             if d and self.has('meta'):
                 raise Viol('meta.reject', 'state_changed', f'{op["op"]}:{out}:{d}')
         if out == 'ok':
@@ -705,7 +744,7 @@ class _RState:
         shutil.rmtree(p2, ignore_errors=True)
         exc = self.call(lambda: self.h.copy(p2))
         if exc is not None:
-            raise Viol('model.copy', f'raises:{type(exc).__name__}', str(exc)[:200])
+            raise self.unexpected('model.copy', f'raises:{type(exc).__name__}', str(exc)[:200])
         if self.has('readme'):
             r = check_ragged_readme(p2, self.scratch, model_lens=[a.shape[0] for a in self.L])
             if r:
@@ -724,9 +763,9 @@ class _RState:
     def do_delete(self, op):
         exc = self.call(lambda: self.darr.delete_raggedarray(self.h))
         if exc is not None:
-            raise Viol('model.delete', f'raises:{type(exc).__name__}', str(exc)[:300])
+            raise self.unexpected('model.delete', f'raises:{type(exc).__name__}', str(exc)[:300])
         if os.path.lexists(self.path):
-            raise Viol('model.delete', 'path_remains', '')
+            raise self.unexpected('model.delete', 'path_remains', '')
         self.mutations_ok += 1
         self.probe('deleted')
         self.h = None
@@ -850,6 +889,38 @@ class _RState:
                 z = ':zero_length' if L[k].shape[0] == 0 else ''
                 raise Viol(f'{who}.getitem', why.split(' ')[0] + z, f'k={k} n={n} {why}')
 
+    def disk_oracles(self, use_model=True):
+        """the oracles that read the directory only (decoder, README); use_model=False after the history left the model"""
+        if self.has('decoder'):
+            try:
+                subs, v, i, top = decode_ragged_dir(self.path)
+            except DecodeError as e:
+                raise Viol('decoder', str(e).split(':')[0], str(e))
+            # the reader that uses only the files obtains what the Darr API reports (fresh handle); agreement of both
+            # with the reference model is C04's subject and judged only where the model is an oracle of the check
+            try:
+                fr = self.darr.RaggedArray(self.path)
+                api = [np.array(fr[k]) for k in range(len(fr))]
+            except Exception as e:
+                raise Viol('decoder.api_open', f'raises:{type(e).__name__}', str(e)[:300])
+            if len(subs) != len(api):
+                raise Viol('decoder.vs_api', 'count', f'{len(subs)} != {len(api)}')
+            for k, (a, b) in enumerate(zip(subs, api)):
+                ok, why = D.arr_equal(a, b)
+                if not ok:
+                    raise Viol('decoder.vs_api', why.split(' ')[0], f'k={k} {why}')
+            same = len(subs) == len(self.L) and all(D.arr_equal(a, b)[0] for a, b in zip(subs, self.L))
+            if not same and (use_model and self.has('model')):
+                raise Viol('decoder.contents', 'differs_from_model', f'{len(subs)} vs {len(self.L)} subarrays')
+            if not same and use_model:
+                self.probe('decoder_and_api_agree_but_model_differs')
+            if i.dtype.name != self.indextype and (use_model and self.has('indextype')):
+                raise Viol('decoder.indextype', 'not_the_requested_one', f'{i.dtype.name}')
+        if self.has('readme'):
+            r = check_ragged_readme(self.path, self.scratch, model_lens=[])
+            if r:
+                raise Viol(*r)
+
     def after_step(self, op):
         if self.h is None:
             return
@@ -873,19 +944,7 @@ class _RState:
                 raise Viol('indextype', f'unreadable:{type(e).__name__}', '')
             if nt != self.indextype:
                 raise Viol('indextype', 'not_the_requested_one', f'{nt} != {self.indextype}')
-        if self.has('decoder'):
-            try:
-                subs, v, i, top = decode_ragged_dir(self.path)
-            except DecodeError as e:
-                raise Viol('decoder', str(e).split(':')[0], str(e))
-            if len(subs) != len(self.L):
-                raise Viol('decoder.contents', 'count', f'{len(subs)} != {len(self.L)}')
-            for k, (a, b) in enumerate(zip(subs, self.L)):
-                ok, why = D.arr_equal(a, b)
-                if not ok:
-                    raise Viol('decoder.contents', why.split(' ')[0], f'k={k} {why}')
-            if i.dtype.name != self.indextype and self.has('indextype'):
-                raise Viol('decoder.indextype', 'not_the_requested_one', f'{i.dtype.name}')
+        self.disk_oracles()
         if self.has('meta'):
             mp = os.path.join(self.path, 'metadata.json')
             r = M.check_meta(self.h.metadata, self.meta, mp, 'live')
@@ -896,10 +955,6 @@ class _RState:
             except Exception as e:
                 raise Viol('fresh.open', f'raises:{type(e).__name__}', str(e)[:300])
             r = M.check_meta(fm, self.meta, mp, 'fresh')
-            if r:
-                raise Viol(*r)
-        if self.has('readme'):
-            r = check_ragged_readme(self.path, self.scratch, model_lens=[a.shape[0] for a in self.L])
             if r:
                 raise Viol(*r)
         if self.has('leak'):
